@@ -3,7 +3,7 @@ from props._common import COMMON_TB
 PROP = dict(
     title="Diagnostics point at the offending source text",
     lean_module="AbraProofs.Properties.C33",
-    required_theorems=["C33_spans_cover", "C33_span_is_token", "C33_byte_span", "C33_token_byte_span"],
+    required_theorems=["C33_spans_cover", "C33_span_is_token", "C33_byte_span", "C33_token_byte_span", "C33_eof_position"],
     harness_bin="c33",
     # the compared observable (all token spans and lexer diagnostics of a whole file) is more than the
     # property fixes; the property itself is checked on every diagnostic by the harness's oracle
@@ -14,7 +14,7 @@ PROP = dict(
          "with annotation and between operands; empty parentheses; non-exhaustive match; redundant arm; assignment to an "
          "immutable binding; unresolved member function; unexpected end of file), each 14 (quick) / 150 (thorough) times behind "
          "0..4 random filler statements carrying non-ASCII text in strings, line comments, block comments and triple-quoted "
-         "literals, and in front of 0..2 more. Per program: every diagnostic of check_lsp(...).errors() — primary range and "
+         "literals, and in front of 0..2 more. Plus the end-of-input family: 34 truncations that end exactly where an identifier / expression / type / pattern is required (`fn`, `type`, `use`, `interface`, `implement`, `s.`, `use a/`, `fn f(x:`, `let a = 1 +`, `match x {` ...) x last character of the file in {ASCII, 2-byte, 3-byte, 4-byte} x 4 trailer styles (comment on the same line, glued comment, block+line comment, comment two lines below) x with/without trailing newline; every primary and secondary range within the file and on char boundaries, and a diagnostic lying behind the code must sit at the end of input or on the last character. Per program: every diagnostic of check_lsp(...).errors() — primary range and "
          "secondary labels — within the file and on char boundaries; the template's diagnostic covers exactly the offending "
          "text known to the generator; all token spans and lexer diagnostics vs the Lean lexer model (byte offsets). "
          "distinct = distinct program texts; non-trivial = non-ASCII text precedes the error site",
